@@ -167,4 +167,105 @@ theorem runH_refines_for (K : List Cls) (s : Sig) (body : PDict → Res Val) (un
         simp only [List.length_append, List.length_cons, List.length_nil] at this
         omega
 
+/-! ## round k6: unhashable calls inside a history -/
+
+/-- `evalH_through_unh`, conditional form -/
+theorem evalH_through_unh_for (K : List Cls) (s : Sig) (body : PDict → Res Val) (unh : Call → Bool) (p : PDict)
+    (below : List (Cls × PDict)) (hb : noCache below) (hKb : Within K below) :
+    ∀ (above : List (Cls × PDict)) (st : HSt) (c : Call) (v : Val), noCache above → Within K above →
+      ValidFor K s body c v → unh (reach s above c) = true →
+      evalH s body unh (above ++ (Cls.cache, p) :: below) st c =
+        ({ st with evals := st.evals ++ [reach s below (reach s above c)] }, .ok v)
+  | [], st, c, v, _, _, h, hu => by
+      simp only [reach] at hu ⊢
+      simp only [List.nil_append, evalH, hu, if_true]
+      exact evalH_below_for K s body unh below st c v hb hKb h
+  | (cls, q) :: rest, st, c, v, hn, hK, h, hu => by
+      obtain ⟨hne, hr⟩ := noCache_cons hn
+      obtain ⟨hm, hKr⟩ := hK.cons
+      cases cls
+      · simp only [reach] at hu ⊢
+        have ih := evalH_through_unh_for K s body unh p below hb hKb rest st c v hr hKr h hu
+        simp only [List.cons_append, evalH]
+        rw [attempts_ok _ _ st _ v ih]
+      · simp only [reach] at hu ⊢
+        have ih := evalH_through_unh_for K s body unh p below hb hKb rest st c v hr hKr h hu
+        simp only [List.cons_append, evalH, ih]
+      · simp only [reach] at hu ⊢
+        simp only [List.cons_append, evalH]
+        rw [h.kwFilter_eq hm] at hu ⊢
+        exact evalH_through_unh_for K s body unh p below hb hKb rest st c v hr hKr h hu
+      · exact absurd rfl hne
+      · simp only [reach] at hu ⊢
+        simp only [List.cons_append, evalH]
+        exact evalH_through_unh_for K s body unh p below hb hKb rest st _ v hr hKr (h.loops hm) hu
+      · simp only [reach] at hu ⊢
+        simp only [List.cons_append, evalH]
+        rw [h.pd2np_eq hm] at hu ⊢
+        exact evalH_through_unh_for K s body unh p below hb hKb rest st c v hr hKr h hu
+
+theorem runH_append (s : Sig) (body : PDict → Res Val) (unh : Call → Bool) (chain : List (Cls × PDict)) :
+    ∀ (st : HSt) (xs ys : List Call),
+      runH s body unh chain st (xs ++ ys) =
+        ((runH s body unh chain (runH s body unh chain st xs).1 ys).1,
+          (runH s body unh chain st xs).2 ++ (runH s body unh chain (runH s body unh chain st xs).1 ys).2)
+  | st, [], ys => by simp [runH]
+  | st, x :: xs, ys => by
+      simp only [List.cons_append, runH]
+      rw [runH_append s body unh chain _ xs ys]
+
+/-- the dict after a history of valid calls, hashable or not: unhashable calls leave it alone, so it is the dict the bare cache
+holds after the HASHABLE calls (as the cache layer received them) -/
+theorem runH_cache_mixed_for (K : List Cls) (s : Sig) (body : PDict → Res Val) (unh : Call → Bool) (p : PDict)
+    (above below : List (Cls × PDict)) (ha : noCache above) (hb : noCache below) (hKa : Within K above)
+    (hKb : Within K below) :
+    ∀ (calls : List Call) (st : HSt) (cst : CacheSt), st.cache = cst.cache →
+      (∀ c ∈ calls, ∃ v, ValidFor K s body c v) →
+      (runH s body unh (above ++ (Cls.cache, p) :: below) st calls).1.cache =
+        (runCache (fun c => .ok (resultOf s body c)) cst
+          ((calls.filter fun c => !unh (reach s above c)).map (reach s above))).1.cache
+  | [], st, cst, hc, _ => by simp [runH, runCache, hc]
+  | c :: cs, st, cst, hc, hv => by
+      obtain ⟨v, hval⟩ := hv c (by simp)
+      have hres : resultOf s body (reach s above c) = v := (ValidFor.reach above hKa hval).resultOf_eq
+      cases hu : unh (reach s above c) with
+      | true =>
+        have hstep := evalH_through_unh_for K s body unh p below hb hKb above st c v ha hKa hval hu
+        simp only [runH, hstep, List.filter_cons, hu, Bool.not_true, Bool.false_eq_true, if_false]
+        exact runH_cache_mixed_for K s body unh p above below ha hb hKa hKb cs _ cst (by simp [hc])
+          (fun x hx => hv x (by simp [hx]))
+      | false =>
+        have hstep := evalH_through_for K s body unh p below hb hKb above st c v ha hKa hval hu
+        simp only [runH, hstep, List.filter_cons, hu, Bool.not_false, if_true, List.map_cons, runCache]
+        cases hl : cst.cache.lookup (callKey (reach s above c)) with
+        | some w =>
+          have hl' : st.cache.lookup (callKey (reach s above c)) = some w := by rw [hc]; exact hl
+          rw [cacheCall_hit _ cst _ w hl]
+          simp only [cacheStep, hl']
+          exact runH_cache_mixed_for K s body unh p above below ha hb hKa hKb cs st cst hc
+            (fun x hx => hv x (by simp [hx]))
+        | none =>
+          have hl' : st.cache.lookup (callKey (reach s above c)) = none := by rw [hc]; exact hl
+          rw [cacheCall_miss _ cst _ hl]
+          simp only [cacheStep, hl', hres]
+          exact runH_cache_mixed_for K s body unh p above below ha hb hKa hKb cs _ _ (by simp [hc])
+            (fun x hx => hv x (by simp [hx]))
+
+/-- without `loops` among the layers a call that is valid for their classes arrives below them as it was passed -/
+theorem reach_eq_self_for {K : List Cls} {s : Sig} {body : PDict → Res Val} :
+    ∀ (ch : List (Cls × PDict)) {c : Call} {v : Val}, Within K ch → ValidFor K s body c v → Cls.loops ∉ classes ch →
+      reach s ch c = c
+  | [], _, _, _, _, _ => rfl
+  | (cls, p) :: rest, c, v, hK, h, hl => by
+      obtain ⟨hm, hr⟩ := hK.cons
+      have hl' : Cls.loops ∉ classes rest := fun e => hl (by simp [classes] at e ⊢; exact Or.inr e)
+      have ih := reach_eq_self_for rest hr h hl'
+      cases cls <;> simp only [reach]
+      · exact ih
+      · exact ih
+      · rw [h.kwFilter_eq hm]; exact ih
+      · exact ih
+      · exact absurd (by simp [classes]) hl
+      · rw [h.pd2np_eq hm]; exact ih
+
 end Pyg
